@@ -1,24 +1,30 @@
 import AthlibVerif.Drv.Regex
 import AthlibVerif.Drv.Athlon
+import AthlibVerif.Drv.HJ
 /-!
 Line-protocol driver: one request per line (`area<TAB>cmd<TAB>arg…`), one reply per line.
 Imports only the import-free models and the generated data, so it also links as `lean_exe`.
 -/
 open AthlibVerif AthlibVerif.Drv
 
-def handle (line : String) : String :=
-  match line.splitOn "\t" with
-  | "rx" :: rest => handleRegex rest
-  | "ath" :: rest => handleAthlon rest
-  | _ => "bad-area"
+structure DrvState where
+  hj : HJState := {}
 
-partial def loop (h : IO.FS.Stream) (out : IO.FS.Stream) : IO Unit := do
+def handle (st : DrvState) (line : String) : DrvState × String :=
+  match line.splitOn "\t" with
+  | "rx" :: rest => (st, handleRegex rest)
+  | "ath" :: rest => (st, handleAthlon rest)
+  | "hj" :: rest => let (c, out) := handleHJ st.hj rest; ({ st with hj := c }, out)
+  | _ => (st, "bad-area")
+
+partial def loop (h : IO.FS.Stream) (out : IO.FS.Stream) (st : DrvState) : IO Unit := do
   let line ← h.getLine
   if line.isEmpty then return ()
   let l := if line.endsWith "\n" then (line.dropEnd 1).toString else line
-  out.putStrLn (handle l)
-  loop h out
+  let (st', r) := handle st l
+  out.putStrLn r
+  loop h out st'
 
 def main : IO Unit := do
   let out ← IO.getStdout
-  loop (← IO.getStdin) out
+  loop (← IO.getStdin) out {}
